@@ -80,6 +80,8 @@ class PathExec:
             return ("unknown", "binop %s" % o)
         if k == "aggregate" and r.get("agg") == "tuple":
             return ("tuple", [self.op(env, o) for o in r["ops"]])
+        if k == "aggregate" and r.get("agg") == "closure":
+            return ("closure", r["def"], [self.op(env, o) for o in r["ops"]])
         if k == "aggregate" and r.get("adt") == "core::option::Option":
             return ("opt", self.op(env, r["ops"][0])) if r["ops"] else ("unknown", "None")
         if k == "unop" and r["op"] == "Not":
@@ -124,14 +126,32 @@ class PathExec:
                 if len(cc) == 1 and cc[0].tname == HBT + "len" and ctx.role(cb, cc[0].arg_path(0)) == OLD and cc[0].dest["local"] == 0:
                     return V("oz" + ver)
             return ("unknown", "map_or")
-        if name in (OPT + "expect", OPT + "unwrap", OPT + "ok_or", OPT + "ok_or_else", "core::result::Result::expect", "core::result::Result::unwrap",
-                    OPT + "unwrap_or_else"):
+        if name in (OPT + "and_then", OPT + "map") and len(args) == 2 and args[0][0] == "opt" and args[1][0] == "closure":
+            cb = ctx.facts.by_dpath.get(args[1][1])
+            if cb is not None and not cb.loops():
+                sub = PathExec(ctx, cb)
+                res = []
+                for rb in cb.return_blocks():
+                    sub.paths = []
+                    sub._walk(0, {1: ("tuple", args[1][2]), 2: args[0][1]}, {"left": None, "ne": False, "cmps": [], "ver": st["ver"], "oz_ver": None}, (), rb, 8)
+                    res += [p["env"].get(0) for p in sub.paths]
+                res = [r_ for r_ in res if r_ is not None]
+                if len(res) == 1:
+                    v = res[0]
+                    if name == OPT + "map":
+                        return ("opt", v)
+                    return v if v[0] == "opt" else ("unknown", "and_then closure result")
+            return ("unknown", "and_then/map closure")
+        if name in (OPT + "ok_or", OPT + "ok_or_else"):
+            v = args[0]
+            return ("res", v[1]) if v[0] == "opt" else ("unknown", "ok_or of %s" % v[0])
+        if name in (OPT + "expect", OPT + "unwrap", "core::result::Result::expect", "core::result::Result::unwrap", OPT + "unwrap_or_else"):
             v = args[0]
             return v[1] if v[0] in ("opt", "res", "branch") else v
-        if name.endswith("Try::branch"):
+        if name.endswith("Try::branch") or (c.name or "").endswith("Try::branch"):
             v = args[0]
             return ("branch", v[1]) if v[0] in ("opt", "res") else ("unknown", "branch")
-        if name.endswith("From::from") or name.endswith("Into::into"):
+        if name.endswith("From::from") or name.endswith("Into::into") or (c.name or "").endswith(("From::from", "Into::into")):
             return args[0]
         return ("unknown", "call %s" % (c.tname or "<indirect>"))
 
@@ -511,4 +531,40 @@ def rule_s_ctor(ctx):
                 R.viol("%s:%s" % (b.path, c.tname), c.where(), "%s %s" % (b.path, bad))
     if n < 4:
         R.anchor("ctor-sites", "expected >= 4 with_capacity hops, found %d" % n)
+    return R
+
+
+def rule_a_ind(ctx):
+    """The arithmetic of the appendix induction, machine-checked for the compiled R with the same prover that discharges the site obligations."""
+    R = RuleResult("A-ind", "the inductive steps of the headroom invariant `pending old table => free(main) >= need(o)`, need(o) = o + ceil(o/R), are proved for the "
+                   "compiled batch size R: a full batch (o >= R) and the final batch (o < R) preserve it across `one user insertion + min(R, o) moves`, "
+                   "the user insertion always has room while elements remain (need(o) >= 2), removals never break it, and a resize of L elements ends within ceil(L/R) batches")
+    Rc = R_const(ctx)
+    if not Rc:
+        R.anchor("R", "batch size constant not found")
+        return R
+    o, g = V("o"), V("g")
+
+    def need(x):
+        return ("add", x, ceil_div(x, Rc))
+    lemmas = [
+        # name, A, B, k, lower bounds, constraints, text
+        ("full-batch", ("sub", ("sub", g, C(1)), C(Rc)), need(("sub", o, C(Rc))), 0, {"o": Rc}, [(g, need(o), False)],
+         "o >= R and g >= need(o)  =>  g - 1 - R >= need(o - R)"),
+        ("last-batch", ("sub", ("sub", g, C(1)), o), C(0), 0, {"o": 1}, [(g, need(o), False)],
+         "1 <= o and g >= need(o)  =>  g - 1 - o >= 0   (the last min(R,o)=o moves and the user insertion fit)"),
+        ("room-for-user-insert", need(o), C(2), 0, {"o": 1}, [], "o >= 1  =>  need(o) >= 2   (a user insertion never meets a full table while elements remain)"),
+        ("removal-from-old", need(o), need(("sub", o, C(1))), 0, {"o": 1}, [], "o >= 1  =>  need(o) >= need(o - 1)   (removing from the old table never breaks the invariant)"),
+        ("batches", ("mul", ceil_div(o, Rc), C(Rc)), o, 0, {}, [], "ceil(o/R) * R >= o   (ceil(L/R) batches of R moves empty the old table)"),
+        ("emptied-then-one", need(o), C(2), 0, {"o": 1}, [], "entering `pending and empty` is only possible from o = 1, where g >= need(1) = 2 >= 1"),
+    ]
+    for name, A, B, k, lower, cons, text in lemmas:
+        ok, detail = sx.prove_ge(A, B, k, lower=lower, constraints=cons)
+        R.inst(lemma=name, statement=text, R=Rc, verdict="ok" if ok else "VIOLATION", detail=detail)
+        if not ok:
+            R.viol("lemma:%s" % name, "DESIGN.md appendix", "inductive step `%s` does not hold for R = %d: %s" % (text, Rc, detail))
+    # the premises that connect the lemmas to the code are the site rules; name them so the evidence shows the chain
+    R.notes.append("premises decided on the code by: S-grow (installation), M-carry + T-mover (one user insertion then min(R,o) moves, each one insert_no_grow), "
+                   "P-only (nothing else changes o upward), S-shrink / S-reserve (the other producers of free space), T-grow (installation only when unsplit)")
+    R.floor(6, "lemmas")
     return R
